@@ -280,6 +280,8 @@ class GlobInit(Contract):
         if len(calls) == 0:
             return z3.BoolVal(False)
         name0, force0, f0 = calls[0]
+        if any(k not in f0 for k in ('current_limit', 'total', 'limit')):
+            return z3.BoolVal(False)          # the limit state is not initialised before the first list is parsed
         ok = [z3.BoolVal(name0 == 'pats' and not force0), f0['current_limit'].t == self.L, f0['total'].t == 0, f0['limit'].t == self.L]
         if len(calls) == 1:
             ok.append(z3.Not(self.has_excl))
@@ -324,8 +326,10 @@ class IsUnique(Contract):
         self.cs = z3.Bool('self_case_sensitive')
         self.nounique = z3.Bool('self_nounique')
         self.seen0 = z3.Const('seen0', z3.SetSort(z3.StringSort()))
-        fields = dict(case_sensitive=Bool(self.cs), nounique=Bool(self.nounique), seen=V('set', self.seen0))
-        return dict(params=dict(self=selfobj(), path=Str(self.path)), fields=fields, pre=[])
+        self.F = z3.BitVec('self_flags', BV)
+        fields = dict(case_sensitive=Bool(self.cs), nounique=Bool(self.nounique), seen=V('set', self.seen0), flags=Flags(self.F))
+        # object invariant established by Glob.__init__ (its own contract): case_sensitive == get_case(self.flags)
+        return dict(params=dict(self=selfobj(), path=Str(self.path)), fields=fields, pre=list(FL.PLATFORM_PRE) + [self.cs == FL.S_get_case(self.F)])
 
     @property
     def hooks(self):
@@ -481,7 +485,7 @@ class IterPatternsSeen(IterPatterns):
 
 
 class ParsePatterns(Contract):
-    module, qual, props = 'glob', 'Glob._parse_patterns', ('C13', 'C03', 'C12', 'C07')
+    module, qual, props = 'glob', 'Glob._parse_patterns', ('C13', 'C03', 'C12', 'C07', 'C11')
     assumptions = ('self._iter_patterns is an abstract iterator of (is_negative, text) pairs (its own contract is IterPatterns)',)
 
     def inputs(self):
@@ -494,7 +498,8 @@ class ParsePatterns(Contract):
         self.len_p0, self.len_n0 = z3.Int('len_pattern0'), z3.Int('len_npatterns0')
         fields = dict(flags=Flags(self.F), negate_flags=Flags(self.NF), nounique=Bool(self.nounique0), negateall=b('negateall'), nodir=b('nodir'),
                       pathlib=b('pathlib'), scandotdir=b('scandotdir'), stars=Str('**'), re_no_dir=ObjV(z3.Const('self_re_no_dir', Obj)),
-                      pattern=V('list', None, length=self.len_p0), npatterns=V('list', None, length=self.len_n0))
+                      pattern=V('list', None, length=self.len_p0), npatterns=V('list', None, length=self.len_n0),
+                      total=Int(z3.Int('self_total0')), current_limit=Int(z3.Int('self_current_limit0')), limit=Int(z3.Int('self_limit0')))
         return dict(params=dict(self=selfobj(), patterns=ObjV(z3.Const('patterns', Obj)), force_negate=Bool(self.force)), fields=fields,
                     pre=[self.n >= 0, self.len_p0 >= 0, self.len_n0 >= 0], ghost={})
 
@@ -565,6 +570,9 @@ class ParsePatterns(Contract):
             ('Glob._parse_patterns.unique_filter_switched_off_only_when_at_most_one_expanded_inclusion_pattern_can_produce_a_path_once', ('C13',), shortcut),
             ('Glob._parse_patterns.NOUNIQUE_is_never_cleared', ('C13',), never_cleared),
             ('Glob._parse_patterns.NODIR_regex_appended_to_exclusions_iff_nodir_and_this_is_the_inclusion_list', ('C12',), nodir),
+            ('Glob._parse_patterns.frame:own_code_never_assigns_the_limit_state_(total,current_limit,limit)_shared_by_both_lists', ('C11',),
+             lambda c: z3.And(c.st.fields['total'].t == z3.Int('self_total0'), c.st.fields['current_limit'].t == z3.Int('self_current_limit0'),
+                              c.st.fields['limit'].t == z3.Int('self_limit0'))),
         ]
 
     obligation_props = {'Glob._parse_patterns.exclusions_compiled': ('C03', 'C07'), 'Glob._parse_patterns.inclusions_split': ('C07',),
